@@ -1,15 +1,64 @@
-(* Corr/C02.v — correspondence for the enum transport model: for a Python member name of enum [ename],
-   what pb.Enum.Value(name) returned (None = ValueError) and what PyEnum[pb.Enum.Name(number)] gave back. *)
-From Coq Require Import ZArith String List Bool.
-From CR Require Import Model.EnumName Gen.PbEnums.
+(* Corr/C02.v — correspondence relations for property C02 (protobuf write -> read is lossless).
+   E. enum transport: for a Python member name of enum [ename], what pb.Enum.Value(name) returned (None =
+      ValueError) and what PyEnum[pb.Enum.Name(number)] gave back  ~  Model/EnumName.v on the generated tables;
+   A. the message the real writer produced (converted to a tree by the protobuf runtime: ListFields)
+        =  write W.pb_root (value extracted from the original objects)          - EXACT, doubles are not rounded;
+   B. value extracted from the objects the real reader built  =  read R.pb_root (tree of the written message). *)
+From Coq Require Import QArith ZArith String List Bool.
+From CR Require Import Model.Codec Model.EnumName Gen.PbEnums Gen.PbFmt.
 Import ListNotations.
 Open Scope string_scope.
+Open Scope list_scope.
 
-Inductive case := CEnum (ename member : string) (number : option Z) (back : option string).
+Inductive case :=
+| CEnum (ename member : string) (number : option Z) (back : option string)
+| CaseA (v : val) (t : tree)      (* original value, tree of the message written by the implementation *)
+| CaseB (t : tree) (v : val).     (* tree of the written message, value read back by the implementation *)
 
 Definition oz_eqb (a b : option Z) := match a, b with Some x, Some y => Z.eqb x y | None, None => true | _, _ => false end.
 Definition os_eqb (a b : option string) :=
   match a, b with Some x, Some y => String.eqb x y | None, None => true | _, _ => false end.
+
+(* exact equality of atoms: a double is the rational it denotes (tolerance 0) *)
+Definition atom_eqb (a b : atom) : bool :=
+  match a, b with
+  | ANum x, ANum y => Qeq_bool x y
+  | AInt x, AInt y => Z.eqb x y
+  | AStr x, AStr y => String.eqb x y
+  | ABool x, ABool y => Bool.eqb x y
+  | _, _ => false
+  end.
+
+Fixpoint tree_eqb (a b : tree) {struct a} : bool :=
+  match a, b with
+  | Leaf t x, Leaf u y => String.eqb t u && atom_eqb x y
+  | Node t ks, Node u ls =>
+      String.eqb t u &&
+      (fix go (ks : list tree) (ls : list tree) {struct ks} : bool :=
+         match ks, ls with
+         | [], [] => true
+         | k :: kr, l :: lr => tree_eqb k l && go kr lr
+         | _, _ => false
+         end) ks ls
+  | _, _ => false
+  end.
+
+Fixpoint val_eqb (a b : val) {struct a} : bool :=
+  let fix go (xs ys : list val) {struct xs} : bool :=
+    match xs, ys with
+    | [], [] => true
+    | x :: xr, y :: yr => val_eqb x y && go xr yr
+    | _, _ => false
+    end in
+  match a, b with
+  | VAtom x, VAtom y => atom_eqb x y
+  | VRec xs, VRec ys => go xs ys
+  | VList xs, VList ys => go xs ys
+  | VNone, VNone => true
+  | VSome x, VSome y => val_eqb x y
+  | VAlt i x, VAlt j y => Nat.eqb i j && val_eqb x y
+  | _, _ => false
+  end.
 
 Definition check (c : case) : bool :=
   match c with
@@ -20,4 +69,59 @@ Definition check (c : case) : bool :=
           oz_eqb (encode t member) number &&
           os_eqb (match encode t member with Some z => decode t z | None => None end) back
       end
+  | CaseA v t => match write W.pb_root "CommonRoad" v with
+                 | Some m => tree_eqb m t
+                 | None => false
+                 end
+  | CaseB t v => match read R.pb_root t with
+                 | Some v' => val_eqb v' v
+                 | None => false
+                 end
+  end.
+
+(* diagnostics for replay files: position (child indices) of the first difference;
+   555 = the model's writer / reader rejects the input, 999 = different number of children, 888 = different
+   constructors, 666 = different tags *)
+Fixpoint val_diff (a b : val) {struct a} : option (list nat) :=
+  let fix go (i : nat) (xs ys : list val) {struct xs} : option (list nat) :=
+    match xs, ys with
+    | [], [] => None
+    | x :: xr, y :: yr => match val_diff x y with Some p => Some (i :: p) | None => go (S i) xr yr end
+    | _, _ => Some [i; 999%nat]
+    end in
+  match a, b with
+  | VAtom x, VAtom y => if atom_eqb x y then None else Some []
+  | VRec xs, VRec ys => go O xs ys
+  | VList xs, VList ys => go O xs ys
+  | VNone, VNone => None
+  | VSome x, VSome y => val_diff x y
+  | VAlt i x, VAlt j y => if Nat.eqb i j then val_diff x y else Some [777%nat]
+  | _, _ => Some [888%nat]
+  end.
+
+Fixpoint tree_diff (a b : tree) {struct a} : option (list nat) :=
+  match a, b with
+  | Leaf t x, Leaf u y => if String.eqb t u && atom_eqb x y then None else Some []
+  | Node t ks, Node u ls =>
+      if negb (String.eqb t u) then Some [666%nat] else
+      (fix go (i : nat) (ks : list tree) (ls : list tree) {struct ks} : option (list nat) :=
+         match ks, ls with
+         | [], [] => None
+         | k :: kr, l :: lr => match tree_diff k l with Some p => Some (i :: p) | None => go (S i) kr lr end
+         | _, _ => Some [i; 999%nat]
+         end) O ks ls
+  | _, _ => Some [888%nat]
+  end.
+
+Definition diagnose (c : case) : option (list nat) :=
+  match c with
+  | CEnum _ _ _ _ => if check c then None else Some []
+  | CaseA v t => match write W.pb_root "CommonRoad" v with
+                 | Some m => tree_diff m t
+                 | None => Some [555%nat]
+                 end
+  | CaseB t v => match read R.pb_root t with
+                 | Some v' => val_diff v' v
+                 | None => Some [555%nat]
+                 end
   end.
